@@ -1,6 +1,7 @@
 // Element types with identity and the element ledger (DESIGN 2.1).  C++11 compatible.
 #pragma once
 
+#include <cmath>
 #include <cstddef>
 #include <cstdint>
 #include <cstring>
@@ -14,21 +15,26 @@
 
 namespace vf {
 
-// plain value used by the reference models
+// plain value used by the reference models. key == kNaNKey models an IEEE NaN (unordered, unequal to everything) for raw floating point elements.
+static const int kNaNKey = 1 << 20;
 struct Val {
   int key;
   unsigned pay;
   Val() : key(0), pay(0) {}
   Val(int k, unsigned p) : key(k), pay(p) {}
+  bool nan() const { return key == kNaNKey; }
   bool same(const Val &o) const { return key == o.key && pay == o.pay; }
-  bool operator==(const Val &o) const { return key == o.key; }
-  bool operator!=(const Val &o) const { return key != o.key; }
-  bool operator<(const Val &o) const { return key < o.key; }
-  bool operator>(const Val &o) const { return key > o.key; }
-  bool operator<=(const Val &o) const { return key <= o.key; }
-  bool operator>=(const Val &o) const { return key >= o.key; }
+  bool operator==(const Val &o) const { return !nan() && !o.nan() && key == o.key; }
+  bool operator!=(const Val &o) const { return !(*this == o); }
+  bool operator<(const Val &o) const { return !nan() && !o.nan() && key < o.key; }
+  bool operator>(const Val &o) const { return !nan() && !o.nan() && key > o.key; }
+  bool operator<=(const Val &o) const { return !nan() && !o.nan() && key <= o.key; }
+  bool operator>=(const Val &o) const { return !nan() && !o.nan() && key >= o.key; }
 #if __cplusplus >= 202002L
-  std::strong_ordering operator<=>(const Val &o) const { return key <=> o.key; }
+  std::partial_ordering operator<=>(const Val &o) const {
+    if (nan() || o.nan()) return std::partial_ordering::unordered;
+    return key <=> o.key;
+  }
 #endif
 };
 
@@ -399,9 +405,40 @@ struct EI<TC8> {
   static Val norm(Val v) { return v; }
 };
 
+// raw arithmetic elements (the library may special-case std::is_arithmetic / is_trivial types)
+template <>
+struct EI<int> {
+  typedef int E;
+  static const bool kTracked = false, kRelocatable = true, kCopyable = true;
+  static const char *name() { return "int"; }
+  static Val val(const E &e) { return Val(e, 0); }
+  static Val norm(Val v) { return Val(v.key, 0); }
+  static E encode(Val v) { return v.key; }
+};
+template <>
+struct EI<double> {
+  typedef double E;
+  static const bool kTracked = false, kRelocatable = true, kCopyable = true;
+  static const char *name() { return "double"; }
+  // key 5 of the generators' small domain is a NaN, key 0 with an odd payload is -0.0 (equal to +0.0 for operator==, different bytes)
+  static Val val(const E &e) { return e != e ? Val(kNaNKey, 0) : Val(static_cast<int>(e), (e == 0 && std::signbit(e)) ? 1u : 0u); }
+  static Val norm(Val v) { return v.key == 5 || v.key == kNaNKey ? Val(kNaNKey, 0) : v.key == 0 ? Val(0, v.pay & 1u) : Val(v.key, 0); }
+  static E encode(Val v) { return v.key == 5 || v.key == kNaNKey ? std::nan("") : v.key == 0 ? ((v.pay & 1u) ? -0.0 : 0.0) : static_cast<double>(v.key); }
+};
+
+// construction of an element from a model value: by (key, payload) constructor for the class types, by value for raw arithmetic types
+template <class E, bool A = std::is_arithmetic<E>::value>
+struct Mk {
+  static E make(Val v) { return E(v.key, v.pay); }
+};
+template <class E>
+struct Mk<E, true> {
+  static E make(Val v) { return EI<E>::encode(v); }
+};
+
 template <class E>
 inline E make_elem(Val v) {
-  return E(v.key, v.pay);
+  return Mk<E>::make(v);
 }
 
 }  // namespace vf
